@@ -104,6 +104,15 @@ func driveZoom(t *Tracer, r Rng, n int) {
 			evChangeZoomExt(t, w, []ID{id}, h, v)
 			continue
 		}
+		if i == 3 { // one very long list per run: beyond 2^16 entries (16-bit counters, chunked processing)
+			w := Win{Abs: true}
+			var ids []ID
+			for k := 0; k < 66000; k++ {
+				ids = append(ids, ID{H: 9, X: int64(k % 512), Y: int64(k / 512 % 512), V: 3, F: int64(k%16) - 8})
+			}
+			evChangeZoomExt(t, w, ids, 9, 3)
+			continue
+		}
 		if i%500 == 13 { // a long list (hundreds of voxels of one zoom pair), kept or coarsened by one level
 			hD, vD := r.In(5, 9), r.In(5, 9)
 			w := r.randomWindow(hD, vD, false)
